@@ -8,7 +8,7 @@
    [kok] = every map has valid, pairwise different keys (what a Go map is); [finv] = finite floats;
    [sh] = both operands are one and the same object (pointer map keys compare by identity). *)
 From Coq Require Import List Bool String Ascii ZArith Arith Floats.SpecFloat.
-From Verif Require Import Util Ints Floats Node GoSrc Value Outcome Deq DeqSpec DeqKeys DeqPaths DeqSound DeqSym DeqRefl DeqMain
+From Verif Require Import Util Ints Floats Node GoSrc Value Outcome Deq DeqSpec DeqKeys DeqPaths DeqSound DeqSym DeqRefl DeqMain DeqForms
                           Shapes EnumVal GenUnits GenDeq GenC05.
 Import ListNotations.
 
@@ -50,6 +50,24 @@ Theorem C05_meets_demand : forall n sh a b,
   meets (deep_equal n sh (APtr (Some a)) (APtr (Some b))) (c05_demand sh n a b).
 Proof. exact deep_equal_meets_c05. Qed.
 Print Assumptions C05_meets_demand.
+
+(* The answer does not depend on the form either operand is handed over in: T, *T or **T (the forms
+   [value_forms] = v, p, pp of the correspondence stream) in any combination, under any options, answer what the
+   (pointer, pointer) call of the theorems above answers - so reflexivity, copy-equality and change detection
+   hold for every one of the 3 x 3 combinations, as the argument-form matrix of the stream demands. *)
+Theorem C05_form_independent : forall n sh o lf rf a b,
+  In lf value_forms -> In rf value_forms ->
+  deep_equal_with_options n sh (arg_of_form lf a) (arg_of_form rf b) o =
+  deep_equal_with_options n sh (APtr (Some a)) (APtr (Some b)) o.
+Proof. exact deep_equal_form_ptr. Qed.
+Print Assumptions C05_form_independent.
+
+Theorem C05_meets_demand_every_form : forall n sh lf rf a b,
+  In lf value_forms -> In rf value_forms ->
+  wfroot n = true -> finv a = true -> kok a = true -> kok b = true ->
+  meets (deep_equal n sh (arg_of_form lf a) (arg_of_form rf b)) (c05_demand sh n a b).
+Proof. exact deep_equal_meets_c05_forms. Qed.
+Print Assumptions C05_meets_demand_every_form.
 
 (* The order in which `range` visits the left map cannot change the answer. *)
 Theorem C05_map_order_irrelevant : forall rec lk lk' rk,
@@ -110,4 +128,20 @@ Example C05_demo :
   deep_equal n false (APtr (Some d)) (APtr (Some a)) = inl false /\
   deep_equal n false (APtr None) (APtr None) = inl true /\
   deep_equal n false ANil ANil = inl false.
+Proof. vm_compute. repeat split; reflexivity. Qed.
+
+(* Non-vacuity of the form theorems: the nine combinations of the stream's matrix are value forms, and on a named
+   map root a changed element is seen, and an independent copy accepted, in every one of them. *)
+Example C05_forms_demo :
+  let n := GenDeq.root_node ("T", TMap (TScalar SString) (TScalar (SInt KInt32))) in
+  let a := VMap false [(VStr "a", VInt 1)] in
+  let b := VMap false [(VStr "a", VInt 2)] in
+  List.length form_pairs = 9%nat /\
+  forallb (fun p : string * string => existsb (String.eqb (fst p)) value_forms && existsb (String.eqb (snd p)) value_forms) form_pairs = true /\
+  forallb (fun p : string * string =>
+    match deep_equal n false (arg_of_form (fst p) a) (arg_of_form (snd p) b),
+          deep_equal n false (arg_of_form (fst p) a) (arg_of_form (snd p) a) with
+    | inl false, inl true => true
+    | _, _ => false
+    end) form_pairs = true.
 Proof. vm_compute. repeat split; reflexivity. Qed.
